@@ -324,7 +324,11 @@ def main(ck: Check):
         "rule": "jobs x environment variants x seeded plans (generated against the validity view: valid and not-ready "
                 "skills, CAST/USE/ELAPSE incl. 0 and fractional/RESOLVE/KEYDOWNSTOP/!debug) x every cut index x "
                 "{in memory, JSON round trip} (quick: memory at even cuts only); a case is (job, variant, plan, cut); "
-                "all are non-trivial in that the resumed engine executes the remaining commands on restored state",
+                "all are non-trivial in that the resumed engine executes the remaining commands on restored state; "
+                "every second plan has off-grid times and commands the engine refuses with an exception (the session goes "
+                "on; the model runs the same session with `refuse` steps); + per job: every skill used, time passed, a "
+                "malformed ELAPSE refused, the other skills cast, resumed directly after the refused line",
+        "refused_command_explorations": refused_evals,
         "samples": samples,
         "command_kinds": kinds,
         "distinct_checkpoints_roundtripped": n_ckpt,
@@ -337,7 +341,9 @@ def main(ck: Check):
         "StoreLaws (everything that influences the future is in the saved store; restore(save(s)) behaves like s): "
         "a hypothesis of the theorems, validated here by the checkpoint round trips and by the resumed runs themselves",
         "JSON round trip of recorded logs is the identity on what a log carries (validated by the json-mode runs)",
-        "unknown command words and ELAPSE without a time are outside the model",
+        "a refused command (unknown command word, ELAPSE without a time, raising debug line) is modelled by what "
+        "_exec_operation / _console leave behind when the FIRST play raises; an exception in a later play of one operation "
+        "is outside the model",
         "end-to-end job model: the job description (params, defaults, binds, mappings) is read off the real built engine; "
         "debug lines (Python eval) and plans with times off the 2^-10 ms grid are outside the comparison (counted)",
     ]
